@@ -372,7 +372,17 @@ class TransitionDefinition:
         )
         self.event: str = event
         self.source: "StateNode" = source
-        self.target_str: Optional[str] = config.get("target")
+        raw_target = config.get("target")
+        # 🛡️ A target names a state. A non-string used to be stored as is: a
+        #    falsy one silently made the transition targetless, any other
+        #    raised a raw TypeError from inside `send()`.
+        if raw_target is not None and not isinstance(raw_target, str):
+            raise InvalidConfigError(
+                f"Transition for event '{event}' in state '{source.id}' has "
+                f"an invalid 'target' of type '{type(raw_target).__name__}'. "
+                "Expected a state name as a string."
+            )
+        self.target_str: Optional[str] = raw_target
         self.actions: List[ActionDefinition] = actions or []
 
         # 🛡️ Guard resolution.
@@ -658,6 +668,14 @@ class StateNode(Generic[TContext, TEvent]):
             self.history = history_kind
         #: Default target used when a history state has nothing recorded yet.
         self.target_str: Optional[str] = config.get("target")
+        if self.target_str is not None and not isinstance(
+            self.target_str, str
+        ):
+            raise InvalidConfigError(
+                f"State '{self.id}' has an invalid 'target' of type "
+                f"'{type(self.target_str).__name__}'. Expected a state name "
+                "as a string."
+            )
 
         self.entry = self._parse_actions(config.get("entry"))
         self.exit = self._parse_actions(config.get("exit"))
